@@ -144,6 +144,17 @@ func (g *gen) nativeProgram(dt string, sh []int, layout string, vs int) {
 func genC17compat(g *gen) {
 	pickVs := func() int { return compatVsets[g.r.intn(len(compatVsets))] }
 	// --- tomat -------------------------------------------------------------------------------
+	// column-major matrices that own their data, every numeric type, safe and UseUnsafe (float64 may share the storage
+	// only when the storage is the row-major listing)
+	for _, dt := range compatNumeric {
+		for _, sh := range [][]int{{2, 3}, {3, 2}, {3, 3}} {
+			for _, lay := range []string{"colmajor", "colconv"} {
+				for _, uns := range []bool{false, true} {
+					g.toMatProgram(dt, sh, lay, 0, uns)
+				}
+			}
+		}
+	}
 	for _, dt := range compatNumeric {
 		for _, layout := range compatLayouts {
 			for _, sh := range compatShapes {
